@@ -3,7 +3,9 @@
 (src/config/*.rs) and the self-test set-up / clean-up (src/config.rs) -> Lean
 (Bma400/GeneratedBld.lean), by SYMBOLIC EXECUTION of the Rust source.
 
-  usage: gen_builders.py <repo/src> <lean/Bma400>      (prints the Lean file)
+  usage: gen_builders.py <repo/src> <lean/Bma400>               builders (T3)  -> GeneratedBld.lean
+         gen_builders.py <repo/src> <lean/Bma400> --api         API plans (T4) -> GeneratedApi.lean
+         gen_builders.py <repo/src> <lean/Bma400> --transport   transports (T5) -> GeneratedFrames.lean
 
 The Rust subset: loop-free function bodies made of `let [mut]`, assignments,
 `if` / `else`, `match` on data-carrying enums and on tuples of bools, `matches!`,
@@ -29,7 +31,18 @@ configuration must hold v at v's address before the next fallible operation / th
 enclosing block.  A source that violates it is reported with exit code 3 (a broken
 obligation, not a parse problem): recording early or late is what C16 forbids.
 
-Exit codes: 0 ok, 1 source outside the translatable subset (soft), 3 commit discipline.
+ERROR PROPAGATION (the interpreter's "stop at the first failure"): the Result of every
+`write_register` / `read_register` must be consumed by `?` (or returned) at once; binding it,
+discarding it or calling a method on it is reported with exit code 4 (what C15 forbids).
+
+--api: the same executor on the API functions of src/lib.rs and the constructors (values that are
+only data - bytes read, decoded results - are opaque; no bus traffic and no recorded configuration
+may depend on them): guard and list of register-level accesses (`Plan`) of every function.
+--transport: write_register / read_register of src/i2c.rs and src/spi.rs executed CONCRETELY under
+every pattern of failing raw HAL operations (2^n runs): attempted operations and result per pattern.
+
+Exit codes: 0 ok, 1 source outside the translatable subset (soft), 3 commit discipline,
+4 error propagation.
 """
 import re, sys, os, copy
 
@@ -42,11 +55,17 @@ class CommitError(Exception):
     pass
 
 
+class HardUnsupported(Unsupported):
+    """something the translator cannot read in a place where effects may hide: never left opaque"""
+    pass
+
+
 # ------------------------------------------------------------------ tokens
 
 TOK = re.compile(r"""
     (?P<ws>\s+|//[^\n]*|/\*.*?\*/)
-  | (?P<num>0x[0-9A-Fa-f_]+|0b[01_]+|\d[\d_]*(?:u8|u16|i16|usize|i32|u32)?)
+  | (?P<num>0x[0-9A-Fa-f_]+|0b[01_]+|\d[\d_]*\.\d+|\d[\d_]*(?:u8|u16|i16|usize|i32|u32)?)
+  | (?P<str>"(?:[^"\\]|\\.)*")
   | (?P<life>'[a-z_]\w*(?!'))
   | (?P<id>[A-Za-z_]\w*)
   | (?P<op>::|->|=>|==|!=|&&|\|\||<=|>=|<<|>>|\.\.|[-+*/%^!&|=<>.,;:(){}\[\]?#@$])
@@ -73,6 +92,7 @@ class P:
     def __init__(self, toks):
         self.t = toks
         self.i = 0
+        self.no_struct = 0      # > 0 while parsing the condition of `if` / scrutinee of `match`
 
     def peek(self, k=0):
         return self.t[self.i + k][1] if self.i + k < len(self.t) else None
@@ -365,7 +385,7 @@ class P:
             return ('pvariant', path, None)
         raise Unsupported('pattern not understood: %r' % t)
 
-    PREC = {'||': 1, '&&': 2, '==': 3, '!=': 3, '|': 4, '^': 5, '&': 6, '<<': 7, '>>': 7, '+': 8, '-': 8, '*': 9, '/': 9}
+    PREC = {'||': 1, '&&': 2, '==': 3, '!=': 3, '<': 3, '>': 3, '<=': 3, '>=': 3, '|': 4, '^': 5, '&': 6, '<<': 7, '>>': 7, '+': 8, '-': 8, '*': 9, '/': 9}
 
     def expr(self, minp=1):
         lhs = self.unary()
@@ -377,6 +397,10 @@ class P:
             self.next()
             rhs = self.expr(p + 1)
             lhs = ('bin', op, lhs, rhs)
+            while self.peek() == 'as':
+                self.next()
+                self.skip_type([',', ')', ';', '}', ']', '||', '&&', '==', '!=', '+', '-', '*', '/', '|', '&', '^', '<<', '>>', '?', '.', '{'])
+                lhs = ('cast', lhs)
 
     def unary(self):
         t = self.peek()
@@ -390,10 +414,21 @@ class P:
         if t == '*':
             self.next()
             return self.unary()
-        return self.postfix(self.primary())
+        e = self.postfix(self.primary())
+        while self.peek() == 'as':
+            self.next()
+            self.skip_type([',', ')', ';', '}', ']', '||', '&&', '==', '!=', '+', '-', '*', '/', '|', '&', '^', '<<', '>>', '?', '.', '{', '<', '>'])
+            e = ('cast', e)
+        return e
 
     def postfix(self, e):
         while True:
+            if self.peek() == '[':
+                self.next()
+                i = self.expr()
+                self.eat(']')
+                e = ('index', e, i)
+                continue
             if self.peek() == '.':
                 self.next()
                 name = self.next()
@@ -422,17 +457,35 @@ class P:
             self.next()
             es = []
             trailing = False
+            saved, self.no_struct = self.no_struct, 0
             while not self.opt(')'):
                 es.append(self.expr())
                 trailing = self.opt(',')
+            self.no_struct = saved
             if len(es) == 1 and not trailing:
                 return es[0]
             return ('tuple', es)
         if t == '{':
             return self.block()
+        if t == '[':
+            self.next()
+            first = self.expr()
+            if self.opt(';'):
+                n = self.expr()
+                self.eat(']')
+                return ('arrayrep', first, n)
+            es = [first]
+            while self.opt(','):
+                if self.peek() == ']':
+                    break
+                es.append(self.expr())
+            self.eat(']')
+            return ('array', es)
         if t == 'if':
             self.next()
+            self.no_struct += 1
             c = self.expr()
+            self.no_struct -= 1
             th = self.block()
             el = None
             if self.opt('else'):
@@ -440,7 +493,9 @@ class P:
             return ('if', c, th, el)
         if t == 'match':
             self.next()
+            self.no_struct += 1
             scrut = self.expr()
+            self.no_struct -= 1
             self.eat('{')
             arms = []
             while not self.opt('}'):
@@ -457,6 +512,12 @@ class P:
         if t in ('true', 'false'):
             self.next()
             return ('lit', t)
+        if t == '|' or t == '||':
+            # closure: |params| body
+            if self.next() == '|':
+                while self.next() != '|':
+                    pass
+            return ('closure', self.expr())
         if k == 'id':
             path = [self.next()]
             while self.peek() == '::':
@@ -479,6 +540,15 @@ class P:
                 raise Unsupported('macro %s!' % path[0])
             if self.peek() == '(':
                 return ('call', path, self.args())
+            if self.peek() == '{' and not self.no_struct and path[-1][0].isupper() and self.kind(1) == 'id' and self.peek(2) in (',', ':', '}'):
+                self.next()
+                fields = []
+                while not self.opt('}'):
+                    f = self.next()
+                    v = self.expr() if self.opt(':') else ('path', [f])
+                    self.opt(',')
+                    fields.append((f, v))
+                return ('structlit', path, fields)
             return ('path', path)
         raise Unsupported('expression not understood at token %d: %r' % (self.i, t))
 
@@ -531,6 +601,56 @@ class Res:
 
 class Unit:
     pass
+
+
+class CondRes:     # `if c { Err(e) } else { Ok(..) }` as a value: a if c else b, both Res
+    def __init__(self, c, a, b):
+        self.c, self.a, self.b = c, a, b
+
+
+class Opaque:      # a value the plan does not depend on (decoded results, arithmetic on data bytes)
+    pass
+
+
+class Arr:         # a byte buffer of known (Lean term) length
+    def __init__(self, n):
+        self.n = n
+
+
+class RegName:     # a read-only register named in a read_register call
+    def __init__(self, name, addr):
+        self.name, self.addr = name, addr
+
+
+class Timer:
+    pass
+
+
+class ConfigDefault:
+    pass
+
+
+class PropagationError(Exception):
+    pass
+
+
+class Hal:         # an embedded-hal peripheral owned by a transport: 'spi' | 'csb' | 'i2c'
+    def __init__(self, kind):
+        self.kind = kind
+
+
+class HalRes:      # the Result of one raw HAL operation under the fault vector being explored
+    def __init__(self, failed, kind, k):
+        self.failed, self.kind, self.k = failed, kind, k
+
+
+class RegParam:    # the `register` parameter of write_register / read_register
+    pass
+
+
+class EarlyRet(Exception):
+    def __init__(self, v):
+        self.v = v
 
 
 def b_not(e):
@@ -625,6 +745,14 @@ class Interp:
         self.chain = []                 # early returns of the top-level function: (cond, result, n_writes)
         self.depth = 0
         self.lets = []                  # (name, Lean term) of merged register values, in order
+        self.hal = None                 # transport mode: the fault vector (list of bools) being explored
+        self.hal_ops = []
+        self.api = False                # lib.rs mode: values the plan does not depend on may be opaque
+        self.acts = []                  # (guard, Lean term of the Act) in api mode
+        self.readregs = {}
+        self.regdefault = {}
+        self.reset_since = False
+        self.last_write = None          # index into acts of the last write whose effect is still open
 
     # ---- store
     def struct_ref(self, ty, path, leaf):
@@ -664,6 +792,65 @@ class Interp:
             raise CommitError('the write of %s to register 0x%02X is not recorded in the configuration before %s '
                               '(recorded there: %s)' % (val, addr, where, cur.e if isinstance(cur, Byte) else cur))
         self.pending = None
+
+    def lean_byte(self, e, env):
+        """a byte expression of a transport function -> Lean term"""
+        k = e[0]
+        if k == 'num':
+            return lean_num(e[1])
+        if k == 'cast':
+            return self.lean_byte(e[1], env)
+        if k == 'mcall' and not e[3]:
+            r = self.eval(e[1], env)
+            if isinstance(r, RegParam) and e[2] == 'addr':
+                return 'BitVec.ofNat 8 a'
+            if isinstance(r, RegParam) and e[2] == 'to_byte':
+                return 'v'
+        if k == 'bin' and e[1] in ('|', '&', '^'):
+            return '(%s %s %s)' % (self.lean_byte(e[2], env), {'|': '|||', '&': '&&&', '^': '^^^'}[e[1]], self.lean_byte(e[3], env))
+        if k == 'bin' and e[1] == '<<' and e[2][0] == 'num' and e[3][0] == 'num':
+            return '0x%02X#8' % ((int(e[2][1], 0) << int(e[3][1], 0)) & 0xFF)
+        if k == 'path' and len(e[1]) == 1 and isinstance(env.get(e[1][0]), U8):
+            return env[e[1][0]].e
+        raise Unsupported('byte expression of a transport function')
+
+    def lean_bytes(self, e, env):
+        """a byte slice argument -> (Lean list term, length term)"""
+        if e[0] == 'array':
+            return '[' + ', '.join(self.lean_byte(x, env) for x in e[1]) + ']', str(len(e[1]))
+        v = self.eval(e, env)
+        if isinstance(v, Arr):
+            return 'List.replicate %s 0#8' % v.n, v.n
+        raise Unsupported('byte slice argument of a HAL operation')
+
+    def hal_op(self, dev, name, args, env):
+        if self.hal is None:
+            raise Unsupported('HAL operation outside the transport translation')
+        if dev.kind == 'csb' and name in ('set_low', 'set_high') and not args:
+            raw = '.csLow' if name == 'set_low' else '.csHigh'
+        elif dev.kind == 'spi' and name in ('write', 'transfer') and len(args) == 1:
+            raw = '.%s (%s)' % ('spiWrite' if name == 'write' else 'spiTransfer', self.lean_bytes(args[0], env)[0])
+        elif dev.kind == 'i2c' and name == 'write' and len(args) == 2 and args[0] == ('path', ['ADDR']):
+            raw = '.i2cWrite dev (%s)' % self.lean_bytes(args[1], env)[0]
+        elif dev.kind == 'i2c' and name == 'write_read' and len(args) == 3 and args[0] == ('path', ['ADDR']):
+            raw = '.i2cWriteRead dev (%s) (%s)' % (self.lean_bytes(args[1], env)[0], self.lean_bytes(args[2], env)[1])
+        else:
+            raise HardUnsupported('HAL operation %s.%s' % (dev.kind, name))
+        k = len(self.hal_ops)
+        self.hal_ops.append(raw)
+        failed = self.hal[k] if k < len(self.hal) else False
+        return HalRes(failed, None, k)
+
+    def close_write(self, where):
+        """settle the effect of the last write on the recorded configuration before `where`"""
+        self.check_pending(where)
+        if self.last_write is not None:
+            self.acts[self.last_write][2] = '.reset' if self.reset_since else '.none'
+            self.last_write = None
+        elif self.reset_since:
+            raise CommitError('the recorded configuration is replaced by the defaults at a point that is not right after '
+                              'an acknowledged command write (before %s)' % where)
+        self.reset_since = False
 
     def shadow_path_of(self, ty):
         """the path inside the device configuration of the (unique) leaf of register type ty"""
@@ -717,6 +904,8 @@ class Interp:
             k = st[0]
             if k == 'let':
                 v = self.eval(st[2], env)
+                if isinstance(v, Res) and v.kind == 'bus':
+                    raise PropagationError('the result of a bus operation is bound to a variable instead of being propagated with `?`')
                 self.bind(st[1], v, env)
             elif k == 'assign':
                 v = self.eval(st[2], env)
@@ -738,13 +927,15 @@ class Interp:
                     if len(self.writes) != nw:
                         raise Unsupported('bus write inside an early-return block')
                     self.restore(snap, env)
-                    self.chain.append((c.e, r[1], len(self.writes)))
+                    self.chain.append((c.e, r[1], len(self.writes), len(self.acts)))
                     continue
                 v = self.eval(e, env)
                 if isinstance(v, tuple) and v and v[0] == 'ret':
                     if self.guards:
                         raise Unsupported('return inside a conditional')
                     return v
+                if k == 'expr' and isinstance(v, Res) and v.kind == 'bus':
+                    raise PropagationError('the result of a bus operation is discarded')
                 if k == 'tail':
                     val = v
             else:
@@ -785,20 +976,32 @@ class Interp:
             base = self.eval(e[1], env)
             if isinstance(base, Ref):
                 return ('store', base.path + (e[2],))
-        raise Unsupported('assignment target')
+        raise HardUnsupported('assignment target')
 
     def assign(self, target, v, env):
+        if isinstance(v, ConfigDefault):
+            base = self.eval(target, env)
+            if not (isinstance(base, Ref) and base.ty == 'Config' and base.path[0] == 'dev'):
+                raise Unsupported('Config::default() assigned to something else than the recorded configuration')
+            for pth, x in list(self.store.items()):
+                if pth[0] == 'dev' and isinstance(x, Byte):
+                    self.store[pth] = Byte(x.ty, 'shadowDefault 0x%02X' % self.regaddr[self.leaf_type(pth)])
+            self.reset_since = True
+            return
         lv = self.lvalue(target, env)
         if lv[0] == 'env':
             if lv[1] not in env:
                 raise Unsupported('assignment to unknown local ' + lv[1])
+            old = env[lv[1]]
+            if isinstance(old, (Ref, Iface, Hal, Timer, Var)) and type(v) is not type(old):
+                raise HardUnsupported('%s is overwritten with a value the translator cannot follow' % lv[1])
             env[lv[1]] = v
         else:
             if lv[1] not in self.store:
                 raise Unsupported('assignment to a non-leaf')
             old = self.store[lv[1]]
             if not isinstance(v, Byte) or v.ty != old.ty:
-                raise Unsupported('assignment changes the type of a configuration leaf')
+                raise HardUnsupported('a configuration leaf is assigned a value the translator cannot follow')
             self.store[lv[1]] = v
 
     def merge(self, c, sa, ea, pa, sb, eb, pb, env):
@@ -839,6 +1042,13 @@ class Interp:
             return a
         if isinstance(a, Unit) and isinstance(b, Unit):
             return a
+        if isinstance(a, Res) and isinstance(b, Res) and 'err' in (a.kind, b.kind) and 'bus' not in (a.kind, b.kind):
+            return CondRes(c, a, b)
+        if self.api and (isinstance(a, (Opaque, Unit)) and isinstance(b, (Opaque, Unit))):
+            return Opaque()
+        if self.api and isinstance(a, (Opaque, Res, Unit)) and isinstance(b, (Opaque, Res, Unit)) and \
+                not any(isinstance(x, Res) and x.kind in ('err', 'bus') for x in (a, b)):
+            return Opaque()
         if isinstance(a, Iface) and isinstance(b, Iface):
             return a
         if isinstance(a, Var) and isinstance(b, Var) and a.variant == b.variant:
@@ -849,6 +1059,18 @@ class Interp:
 
     def eval_if(self, e, env):
         c = self.eval(e[1], env)
+        if self.api and isinstance(c, Opaque):
+            # the plan must not depend on it: both branches are run and must be free of effects
+            n_acts = len(self.acts) + len(self.hal_ops)
+            snap = self.snapshot(env)
+            self.exec_block(e[2], env, False)
+            if e[3]:
+                self.restore(snap, env)
+                self.exec_block(e[3], env, False)
+            if len(self.acts) + len(self.hal_ops) != n_acts or self.changed(snap, env):
+                raise Unsupported('bus traffic or recorded configuration depends on data read from the device')
+            self.restore(snap, env)
+            return Opaque()
         if not isinstance(c, Bool):
             raise Unsupported('condition is not a bool')
         if c.e == 'true':
@@ -987,7 +1209,73 @@ class Interp:
         return acc
 
     def eval(self, e, env):
+        if not self.api:
+            return self.eval_strict(e, env)
+        n_acts, n_w = len(self.acts), len(self.writes)
+        snap = (dict(self.store), dict(env))
+        try:
+            return self.eval_strict(e, env)
+        except HardUnsupported:
+            raise
+        except Unsupported:
+            # only an expression that is certainly free of effects may be left opaque: no bus or timer
+            # call, no call of a function defined in the crate, no assignment anywhere inside it
+            if len(self.acts) != n_acts or len(self.writes) != n_w or self.risky(e):
+                raise
+            self.store = snap[0]
+            env.clear()
+            env.update(snap[1])
+            return Opaque()
+
+    def known_fns(self):
+        if not hasattr(self, '_known'):
+            k = {'read_register', 'write_register', 'delay_ms', 'write', 'transfer', 'write_read', 'set_low', 'set_high'}
+            k.update(self.items['fn'].keys())
+            for fns in self.items['impl'].values():
+                k.update(fns.keys())
+            # accessors of the configuration structs are interpreted, never skipped; constructors of data are harmless
+            self._known = k - {'new', 'default', 'from', 'into', 'clone'}
+        return self._known
+
+    def risky(self, e):
+        if not isinstance(e, tuple) or not e:
+            return False
         k = e[0]
+        if k in ('assign', 'return', 'let') and k != 'let':
+            return True
+        if k == 'mcall' and e[2] in self.known_fns():
+            return True
+        if k == 'call' and e[1][-1] in self.known_fns():
+            return True
+        for sub in e[1:]:
+            if isinstance(sub, tuple) and self.risky(sub):
+                return True
+            if isinstance(sub, list):
+                for x in sub:
+                    if isinstance(x, tuple) and (self.risky(x) or any(isinstance(y, tuple) and self.risky(y) for y in x)):
+                        return True
+                    if isinstance(x, list) and any(isinstance(y, tuple) and self.risky(y) for y in x):
+                        return True
+        return False
+
+    def eval_strict(self, e, env):
+        k = e[0]
+        if k in ('index', 'cast', 'array'):
+            for sub in (e[1:] if k != 'array' else e[1]):
+                if isinstance(sub, tuple):
+                    self.eval(sub, env)
+            return Opaque()
+        if k == 'arrayrep':
+            n = self.eval(e[2], env)
+            if isinstance(n, U8):
+                return Arr(str(int(n.e[2:4], 16)))
+            raise Unsupported('array length')
+        if k == 'structlit':
+            for _, v in e[2]:
+                self.eval(v, env)
+            if e[1][-1] in ('I2CInterface', 'SPIInterface'):
+                return Iface()
+            return Opaque()
         if k == 'block':
             env2 = dict(env)
             r = self.exec_block(e, env2, False)
@@ -1001,6 +1289,8 @@ class Interp:
         if k == 'lit':
             return Bool(e[1])
         if k == 'num':
+            if '.' in e[1]:
+                return Opaque()
             return U8(lean_num(e[1]))
         if k == 'tuple':
             return Tup([self.eval(x, env) for x in e[1]])
@@ -1022,7 +1312,11 @@ class Interp:
             if len(p) == 1:
                 if p[0] in env:
                     return env[p[0]]
+                if p[0] in self.readregs:
+                    return RegName(p[0], self.readregs[p[0]])
                 raise Unsupported('unknown name ' + p[0])
+            if len(p) == 2 and p[0] == 'Command':
+                return Enum('Command', ('c', p[1]))
             if len(p) == 2 and p[0] in self.items['enum']:
                 return Enum(p[0], ('c', p[1]))
             if len(p) == 2 and p[0] in self.maps['enums']:
@@ -1041,9 +1335,22 @@ class Interp:
             raise Unsupported('field access .%s on %s' % (e[2], type(base).__name__))
         if k == 'try':
             v = self.eval(e[1], env)
-            if isinstance(v, Res) and v.kind == 'ok':
+            if isinstance(v, HalRes):
+                if v.failed:
+                    raise EarlyRet(v)
+                return Unit()
+            if isinstance(v, Res) and v.kind in ('ok', 'bus'):
                 return v.payload if v.payload is not None else Unit()
-            raise Unsupported('`?` on something that is not a bus write')
+            if isinstance(v, CondRes) and self.depth == 0 and not self.guards:
+                # `helper()?` where the helper returns Err under a condition on the recorded configuration:
+                # an arm of the result chain of the function being translated
+                err, ok, cond = (v.a, v.b, v.c) if v.a.kind == 'err' else (v.b, v.a, b_not(v.c))
+                if ok.kind != 'ok':
+                    raise HardUnsupported('conditional result with two errors')
+                self.check_pending('the early return')
+                self.chain.append((cond, err, len(self.writes), len(self.acts)))
+                return ok.payload if ok.payload is not None else Unit()
+            raise HardUnsupported('`?` on something that is neither a bus operation nor a conditional configuration error')
         if k == 'call':
             p = e[1]
             args = [self.eval(a, env) for a in e[2]]
@@ -1053,9 +1360,19 @@ class Interp:
                 return Res('err', args[0])
             if len(p) == 1 and p[0] in self.items['fn']:
                 return self.run_fn(None, p[0], None, args)
+            if p == ['Config', 'default'] and not args:
+                return ConfigDefault()
+            if len(p) == 2 and p[1] == 'default' and p[0] in self.regdefault and not args:
+                return Byte(p[0], '0x%02X#8' % self.regdefault[p[0]])
             if len(p) == 2 and p[1] == 'from_bits_truncate' and p[0] in self.regaddr:
                 if isinstance(args[0], U8):
                     return Byte(p[0], 'trunc (DS.definedMask 0x%02X) %s' % (self.regaddr[p[0]], paren(args[0].e)))
+            if len(p) == 2 and p[0] in ('Self', 'BMA400') and p[1] in self.items['impl'].get('BMA400', {}) and self.api:
+                return self.run_fn('BMA400', p[1], None, args)
+            if p[-1] in self.known_fns():
+                raise HardUnsupported('call of the crate function ' + '::'.join(p))
+            if self.api:
+                return Opaque()     # the arguments have been evaluated (with their bus traffic); the value is data
             raise Unsupported('call ' + '::'.join(p))
         if k == 'mcall':
             return self.eval_mcall(e, env)
@@ -1082,31 +1399,114 @@ class Interp:
             raise Unsupported('comparison of %s and %s' % (type(a).__name__, type(b).__name__))
         if op == '^' and isinstance(a, Byte) and isinstance(b, Byte) and a.ty == b.ty:
             return Byte(a.ty, '(%s ^^^ %s)' % (a.e, b.e))
+        if self.api:
+            return Opaque()
         raise Unsupported('operator %s on %s, %s' % (op, type(a).__name__, type(b).__name__))
 
     def eval_mcall(self, e, env):
         name = e[2]
         recv = self.eval(e[1], env)
-        if isinstance(recv, Iface):
-            if name != 'write_register' or len(e[3]) != 1:
-                raise Unsupported('interface method ' + name)
+        if isinstance(recv, Hal):
+            return self.hal_op(recv, name, e[3], env)
+        if isinstance(recv, HalRes):
+            if name == 'map_err' and len(e[3]) == 1 and e[3][0][0] == 'path':
+                kind = {'IOError': 'io', 'ChipSelectPinError': 'pin'}.get(e[3][0][1][-1])
+                if kind is None:
+                    raise Unsupported('map_err to ' + e[3][0][1][-1])
+                return HalRes(recv.failed, kind if recv.failed else recv.kind, recv.k)
+            if name == 'map' and len(e[3]) == 1:
+                return recv
+            if name == 'is_ok' and not e[3]:
+                return Bool('false' if recv.failed else 'true')
+            if name == 'is_err' and not e[3]:
+                return Bool('true' if recv.failed else 'false')
+            if name in ('and', 'and_then') and len(e[3]) == 1:
+                other = self.eval(e[3][0], env) if name == 'and' else None
+                if name == 'and_then':
+                    if recv.failed:
+                        return recv
+                    other = self.eval(e[3][0][1], env) if e[3][0][0] == 'closure' else None
+                if not isinstance(other, HalRes):
+                    raise Unsupported('Result::%s with something that is not a HAL result' % name)
+                return other if not recv.failed else recv
+            if name == 'or' and len(e[3]) == 1:
+                other = self.eval(e[3][0], env)
+                if not isinstance(other, HalRes):
+                    raise Unsupported('Result::or')
+                return recv if not recv.failed else other
+            if name in ('ok', 'err', 'unwrap_or_default', 'unwrap_or') :
+                for a_ in e[3]:
+                    self.eval(a_, env)
+                return Opaque()
+            raise HardUnsupported('method .%s on the result of a HAL operation' % name)
+        if isinstance(recv, Timer):
+            if name != 'delay_ms' or len(e[3]) != 1:
+                raise Unsupported('timer method ' + name)
             v = self.eval(e[3][0], env)
+            if not isinstance(v, U8):
+                raise Unsupported('delay argument')
+            self.close_write('a delay')
+            self.acts.append((self.guard(), '.delay %d' % int(v.e[2:4], 16)))
+            return Unit()
+        if isinstance(recv, Iface):
+            if name == 'read_register' and len(e[3]) == 2 and self.api:
+                r = self.eval(e[3][0], env)
+                b = self.eval(e[3][1], env)
+                if not isinstance(r, RegName) or not isinstance(b, Arr):
+                    raise Unsupported('read_register arguments')
+                self.close_write('the next bus read')
+                self.acts.append((self.guard(), '.rd 0x%02X %s' % (r.addr, b.n)))
+                return Res('bus', None)
+            if name != 'write_register' or len(e[3]) != 1:
+                raise HardUnsupported('interface method ' + name)
+            v = self.eval(e[3][0], env)
+            if self.api and isinstance(v, Enum) and v.ty == 'Command' and v.tree[0] == 'c':
+                self.close_write('the next bus write')
+                self.acts.append([self.guard(), '.wr 0x7E R.cmd_%s' % v.tree[1], None])
+                self.last_write = len(self.acts) - 1
+                self.reset_since = False
+                return Res('bus', None)
             if not isinstance(v, Byte) or v.ty not in self.regaddr:
                 raise Unsupported('write_register of something that is not a configuration register')
-            self.check_pending('the next bus write')
+            self.close_write('the next bus write')
             addr = self.regaddr[v.ty]
             self.writes.append((self.guard(), addr, v.e))
-            self.pending = (addr, v.e, self.shadow_path_of(v.ty))
-            return Res('ok', None)
+            hits = [p for p, x in self.store.items() if p[0] == 'dev' and isinstance(x, Byte) and self.leaf_type(p) == v.ty]
+            if hits:
+                self.pending = (addr, v.e, self.shadow_path_of(v.ty))
+                self.acts.append([self.guard(), '.wr 0x%02X %s' % (addr, paren(v.e)), '.commit'])
+            else:
+                # a register the driver keeps no record of (SELF_TEST, IF_CONF)
+                if not self.api:
+                    raise Unsupported('write of a register without a configuration leaf')
+                self.acts.append([self.guard(), '.wr 0x%02X %s' % (addr, paren(v.e)), None])
+                self.last_write = len(self.acts) - 1
+                self.reset_since = False
+            return Res('bus' if self.api else 'ok', None)
         args = [self.eval(a, env) for a in e[3]]
+        if name == 'clone' and not args and isinstance(recv, Ref) and recv.ty == 'Config':
+            self.nclone = getattr(self, 'nclone', 0) + 1
+            root = ('saved%d' % self.nclone,)
+            for pth, x in list(self.store.items()):
+                if pth[:len(recv.path)] == recv.path and isinstance(x, Byte):
+                    self.store[root + pth[len(recv.path):]] = x
+            return Ref('Config', root)
         if name in ('into', 'clone', 'borrow') and not args:
             return recv
+        if isinstance(recv, Res) and recv.kind == 'bus' and name in ('map', 'map_err') and len(e[3]) == 1:
+            return recv
+        if isinstance(recv, Res) and recv.kind == 'bus':
+            raise PropagationError('the result of a bus operation is used by .%s() instead of being propagated with `?`' % name)
         if isinstance(recv, Byte):
             return self.reg_method(recv, name, args)
         if isinstance(recv, Ref):
             return self.run_fn(recv.ty, name, recv, args)
         if isinstance(recv, Var):
             return self.run_fn(recv.ty, name, recv, args)
+        if self.api and isinstance(recv, (Opaque, Arr, U8, Bool, Enum, Tup)) and name not in self.known_fns():
+            return Opaque()
+        if name in self.known_fns():
+            raise HardUnsupported('method .%s of the crate on %s' % (name, type(recv).__name__))
         raise Unsupported('method .%s on %s' % (name, type(recv).__name__))
 
     def reg_method(self, r, name, args):
@@ -1137,6 +1537,9 @@ class Interp:
 
 def lean_num(s):
     s = re.sub(r'(u8|u16|i16|usize|i32|u32)$', '', s).replace('_', '')
+    v = int(s[2:], 16) if s.startswith('0x') else int(s[2:], 2) if s.startswith('0b') else int(s)
+    if v > 255:
+        return '(BitVec.ofNat 8 %d)' % v   # only ever compared as data; plans never depend on it
     if s.startswith('0x'):
         return '0x%02X#8' % int(s[2:], 16)
     if s.startswith('0b'):
@@ -1272,7 +1675,7 @@ def translate_builder(items, regaddr, maps, spec):
     if isinstance(r, tuple) and r and r[0] == 'ret':
         r = r[1]
     out = lean_result(r, it.writes)
-    for c, rr, nw in reversed(it.chain):
+    for c, rr, nw, _na in reversed(it.chain):
         out = 'if %s then %s else\n  %s' % (c, lean_result(rr, it.writes[:nw]), out)
     # only the lets the result depends on (the recorded configuration after the writes is merged too)
     used = set()
@@ -1307,7 +1710,261 @@ def translate_selftest(items, regaddr, maps, which):
     return 'def selfTestSetup (sh : Regs) : List W :=\n  [%s]' % ws, len(it.writes)
 
 
+API = [  # (Lean name, Rust fn, extra Lean binder, parameters)
+    ('get_id', 'get_id'), ('get_cmd_error', 'get_cmd_error'), ('get_status', 'get_status'),
+    ('get_unscaled_data', 'get_unscaled_data'), ('get_data', 'get_data'), ('get_sensor_clock', 'get_sensor_clock'),
+    ('get_reset_status', 'get_reset_status'), ('get_int_status0', 'get_int_status0'), ('get_int_status1', 'get_int_status1'),
+    ('get_int_status2', 'get_int_status2'), ('get_fifo_len', 'get_fifo_len'), ('read_fifo_frames', 'read_fifo_frames'),
+    ('flush_fifo', 'flush_fifo'), ('get_step_count', 'get_step_count'), ('clear_step_count', 'clear_step_count'),
+    ('get_step_activity', 'get_step_activity'), ('get_raw_temp', 'get_raw_temp'), ('get_temp_celsius', 'get_temp_celsius'),
+    ('perform_self_test', 'perform_self_test'), ('soft_reset', 'soft_reset'),
+    ('new_i2c', 'new_i2c'), ('new_spi', 'new_spi'), ('new_spi_3wire', 'new_spi_3wire'),
+]
+
+
+def acts_term(acts):
+    """list of acts; an access that is attempted only under a condition on the recorded configuration is
+    kept as `if c then [act] else []` (the model's plans have none: the equality proof then fails)"""
+    parts, cur = [], []
+    for a in acts:
+        t = a[1] + ((' ' + a[2]) if len(a) == 3 else '')
+        if a[0] == 'true':
+            cur.append(t)
+        else:
+            if cur:
+                parts.append('[' + ', '.join(cur) + ']')
+                cur = []
+            parts.append('(if %s then [%s] else [])' % (a[0], t))
+    if cur or not parts:
+        parts.append('[' + ', '.join(cur) + ']')
+    return ' ++ '.join(parts)
+
+
+def api_result(r, acts):
+    if isinstance(r, Res) and r.kind == 'err' and isinstance(r.payload, Enum) and r.payload.ty == 'ConfigError':
+        if acts:
+            raise Unsupported('configuration error returned after bus traffic')
+        name = {'Filt1InterruptInvalidODR': 'filt1Odr', 'TapIntEnabledInvalidODR': 'tapOdr',
+                'FifoReadWhilePwrDisable': 'fifoPwr'}.get(r.payload.tree[1])
+        if not name:
+            raise Unsupported('unknown ConfigError variant')
+        return '⟨some (.cfg .%s), []⟩' % name
+    return '⟨none, %s⟩' % acts_term(acts)
+
+
+def translate_api(items, regaddr, regdefault, readregs, maps, lname, fname):
+    it = Interp(items, regaddr, maps)
+    it.api = True
+    it.readregs = readregs
+    it.regdefault = regdefault
+    dev_cfg = it.struct_ref('Config', ('dev',), lambda t, a: 'sh 0x%02X' % a)
+    it.items['struct']['BMA400'] = [('interface', ['__Iface']), ('config', ['Config'])]
+    it.store[('self', 'interface')] = Iface()
+    it.store[('self', 'config')] = dev_cfg
+    selfv = Ref('BMA400', ('self',))
+    params, toks = items['impl']['BMA400'][fname]
+    body = P(toks).block()
+    env = {}
+    binder = ''
+    for p_ in params:
+        if p_ == 'self':
+            env['self'] = selfv
+        elif p_ == 'timer':
+            env[p_] = Timer()
+        elif p_ == 'buffer':
+            env[p_] = Arr('n')
+            binder = ' (n : Nat)'
+        else:
+            env[p_] = Opaque()
+    r = it.exec_block(body, env, top=True)
+    it.close_write('the end of ' + fname)
+    if isinstance(r, tuple) and r and r[0] == 'ret':
+        r = r[1]
+    out = api_result(r, it.acts)
+    for c, rr, nw, na in reversed(it.chain):
+        out = 'if %s then %s else\n  %s' % (c, api_result(rr, it.acts[:na]), out)
+    if it.lets:
+        raise Unsupported('the plan of an API function depends on merged register values')
+    return 'def %s (sh : Regs)%s : Plan :=\n  %s' % (lname, binder, out), len(it.acts)
+
+
+TRANSPORT = [('i2c_write', 'i2c.rs', 'I2CInterface', 'write_register'), ('i2c_read', 'i2c.rs', 'I2CInterface', 'read_register'),
+             ('spi_write', 'spi.rs', 'SPIInterface', 'write_register'), ('spi_read', 'spi.rs', 'SPIInterface', 'read_register')]
+
+
+def parse_trait_impls(srcdir, fname, items):
+    """`impl<..> Trait for Type<..> { fn .. }` blocks of a transport file -> items['impl'][Type]"""
+    toks = tokenize(open(os.path.join(srcdir, fname)).read())
+    p = P(toks)
+    while p.peek() is not None:
+        if p.peek() == '#':
+            j = p.i
+            p.skip_attr()
+            if ''.join(x[1] for x in p.t[j:p.i]) == '#[cfg(test)]':
+                break
+            continue
+        if p.peek() != 'impl':
+            p.next()
+            continue
+        p.next()
+        if p.peek() == '<':
+            p.skip_generics()
+        j = p.i
+        p.skip_type(['{', 'where'])
+        head = [x[1] for x in p.t[j:p.i]]
+        if p.peek() == 'where':
+            p.skip_type(['{'])
+        if 'for' not in head:
+            p.skip_braced()
+            continue
+        target = head[head.index('for') + 1]
+        p.eat('{')
+        sub = {'struct': {}, 'enum': {}, 'fn': {}, 'impl': {}}
+        p.items(sub, until='}')
+        p.eat('}')
+        items['impl'].setdefault(target, {}).update(sub['fn'])
+
+
+def run_transport(items, regaddr, maps, owner, fname, vec):
+    it = Interp(items, regaddr, maps)
+    it.api = True
+    it.hal = vec
+    fields = {'I2CInterface': ['i2c'], 'SPIInterface': ['spi', 'csb']}[owner]
+    declared = [f for f, _ in items['struct'].get(owner, [])]
+    if declared != fields:
+        raise Unsupported('%s has fields %s' % (owner, declared))
+    for f in fields:
+        it.store[('self', f)] = Hal(f)
+    selfv = Ref(owner, ('self',))
+    params, toks = items['impl'][owner][fname]
+    body = P(toks).block()
+    env = {}
+    for p_ in params:
+        env[p_] = selfv if p_ == 'self' else RegParam() if p_ == 'register' else Arr('n') if p_ == 'buffer' else Opaque()
+    try:
+        r = it.exec_block(body, env, top=False)
+        if isinstance(r, tuple) and r and r[0] == 'ret':
+            r = r[1]
+    except EarlyRet as ex:
+        r = ex.v
+    if isinstance(r, Res) and r.kind == 'ok':
+        res = 'none'
+    elif isinstance(r, HalRes):
+        if not r.failed:
+            res = 'none'
+        elif r.kind in ('io', 'pin'):
+            res = 'some (%s, %d)' % ('true' if r.kind == 'pin' else 'false', r.k)
+        else:
+            raise Unsupported('a HAL error is returned without being wrapped in IOError / ChipSelectPinError')
+    else:
+        raise Unsupported('result of a transport function')
+    return it.hal_ops, res
+
+
+def main_transport(srcdir, leandir):
+    items = {'struct': {}, 'enum': {}, 'fn': {}, 'impl': {}}
+    for f in ('i2c.rs', 'spi.rs'):
+        P(tokenize(open(os.path.join(srcdir, f)).read())).items(items)
+        parse_trait_impls(srcdir, f, items)
+    regaddr, regdefault, readregs = load_regtable(srcdir)
+    maps = {'flagenc': {}, 'flagdec': {}, 'enumdec': {}, 'enumenc': {}, 'enums': {}}
+    defs = []
+    for lname, f, owner, fname in TRANSPORT:
+        ops0, _ = run_transport(copy.deepcopy(items), regaddr, maps, owner, fname, [])
+        n = len(ops0)
+        if n == 0 or n > 6:
+            raise Unsupported('%s::%s performs %d HAL operations' % (owner, fname, n))
+        rows = []
+        for bits in range(2 ** n):
+            vec = [bool((bits >> i) & 1) for i in range(n)]
+            ops, res = run_transport(copy.deepcopy(items), regaddr, maps, owner, fname, vec)
+            rows.append('    ([%s], [%s], %s)' % (', '.join('true' if b else 'false' for b in vec), ', '.join(ops), res))
+        defs.append('/-- %s::%s of src/%s: for every pattern of failing HAL operations (operation k fails iff the k-th\n'
+                    '    entry is true), the operations attempted in order and the result (none = Ok, some (pin?, k) = the error\n'
+                    '    of operation k as ChipSelectPinError / IOError) -/\n'
+                    'def %s (dev a n : Nat) (v : Byte) : List (List Bool × List Raw × Option (Bool × Nat)) :=\n  [\n%s ]'
+                    % (owner, fname, f, lname, ',\n'.join(rows)))
+    print('/- GENERATED by tools/gen_builders.py --transport from src/i2c.rs and src/spi.rs on every check run.')
+    print('   Do not edit.  The two transports, executed under EVERY pattern of failing raw HAL operations. -/')
+    print('import Bma400.Driver')
+    print('set_option linter.unusedVariables false')
+    print('namespace Bma400')
+    print('namespace Generated')
+    print('namespace Frames')
+    print()
+    print('\n\n'.join(defs))
+    print()
+    print('end Frames')
+    print('end Generated')
+    print('end Bma400')
+
+
+def load_regtable(srcdir):
+    src = re.sub(r'//[^\n]*', '', open(os.path.join(srcdir, 'registers.rs')).read())
+    addr, dflt, rd = {}, {}, {}
+    for m in re.finditer(r'cfg_register!\s*\{\s*(\w+)\s*:\s*(0x[0-9A-Fa-f]+)\s*=\s*(0x[0-9A-Fa-f]+)', src):
+        addr[m.group(1)] = int(m.group(2), 16)
+        dflt[m.group(1)] = int(m.group(3), 16)
+    for m in re.finditer(r'r_register!\(\s*(\w+)\s*:\s*(0x[0-9A-Fa-f]+)\s*\)', src):
+        rd[m.group(1)] = int(m.group(2), 16)
+    return addr, dflt, rd
+
+
+def main_api(srcdir, leandir):
+    items = parse_all(srcdir)
+    for f in ('lib.rs', 'i2c.rs', 'spi.rs'):
+        P(tokenize(open(os.path.join(srcdir, f)).read())).items(items)
+    regaddr, regdefault, readregs = load_regtable(srcdir)
+    maps = load_maps(leandir, srcdir)
+    defs, counts = [], []
+    for lname, fname in API:
+        d, n = translate_api(copy.deepcopy(items), regaddr, regdefault, readregs, maps, lname, fname)
+        defs.append('/-- BMA400::%s -/\n%s' % (fname, d))
+        counts.append(n)
+    print('/- GENERATED by tools/gen_builders.py --api from src/lib.rs, src/i2c.rs, src/spi.rs (with src/config.rs inlined)')
+    print('   on every check run.  Do not edit.  The PLAN of every API function: its guard and the register-level')
+    print('   accesses it makes, in order (`?` after every access: the interpreter stops at the first failure). -/')
+    print('import Bma400.Driver')
+    print('set_option linter.unusedVariables false')
+    print('namespace Bma400')
+    print('namespace Generated')
+    print('namespace Api')
+    print('open R')
+    print()
+    print('\n\n'.join(defs))
+    print()
+    print('def actCounts : List Nat := [%s]' % ', '.join(str(c) for c in counts))
+    print()
+    print('end Api')
+    print('end Generated')
+    print('end Bma400')
+
+
 def main():
+    if len(sys.argv) > 3 and sys.argv[3] == '--transport':
+        try:
+            return main_transport(sys.argv[1], sys.argv[2])
+        except Unsupported as ex:
+            sys.stderr.write('outside the translatable subset: %s\n' % ex)
+            sys.exit(1)
+        except Exception as ex:
+            sys.stderr.write('outside the translatable subset: %s: %s\n' % (type(ex).__name__, ex))
+            sys.exit(1)
+    if len(sys.argv) > 3 and sys.argv[3] == '--api':
+        try:
+            return main_api(sys.argv[1], sys.argv[2])
+        except CommitError as ex:
+            sys.stderr.write('commit discipline: %s\n' % ex)
+            sys.exit(3)
+        except PropagationError as ex:
+            sys.stderr.write('error propagation: %s\n' % ex)
+            sys.exit(4)
+        except Unsupported as ex:
+            sys.stderr.write('outside the translatable subset: %s\n' % ex)
+            sys.exit(1)
+        except Exception as ex:
+            sys.stderr.write('outside the translatable subset: %s: %s\n' % (type(ex).__name__, ex))
+            sys.exit(1)
     srcdir, leandir = sys.argv[1], sys.argv[2]
     try:
         items = parse_all(srcdir)
@@ -1326,8 +1983,14 @@ def main():
     except CommitError as ex:
         sys.stderr.write('commit discipline: %s\n' % ex)
         sys.exit(3)
+    except PropagationError as ex:
+        sys.stderr.write('error propagation: %s\n' % ex)
+        sys.exit(4)
     except Unsupported as ex:
         sys.stderr.write('outside the translatable subset: %s\n' % ex)
+        sys.exit(1)
+    except Exception as ex:   # anything the translator did not foresee is a source it cannot read
+        sys.stderr.write('outside the translatable subset: %s: %s\n' % (type(ex).__name__, ex))
         sys.exit(1)
     print('/- GENERATED by tools/gen_builders.py from src/config.rs and src/config/*.rs on every check run.')
     print('   Do not edit.  Symbolic execution of the builders\' write() functions: `sh` is the recorded')
